@@ -225,11 +225,21 @@ func cmdCheck(args []string) {
 		}
 		f.obls = append(f.obls, o)
 	}
+	var deadSites []string
 	for site, feasible := range coverSites {
 		if !feasible {
-			fmt.Printf("CHECK BROKEN: vacuity guard: no feasible path reaches %s (contradictory contract or assumption)\n", site)
-			os.Exit(2)
+			if strings.HasSuffix(site, "@entry") {
+				fmt.Printf("CHECK BROKEN: vacuity guard: the precondition of %s is unsatisfiable (contradictory contract or assumption)\n", site)
+				os.Exit(2)
+			}
+			// a return statement no feasible path reaches: dead code, or an assumption that is too strong;
+			// reported, not fatal (the obligations on the feasible paths are still meaningful)
+			deadSites = append(deadSites, site)
 		}
+	}
+	sort.Strings(deadSites)
+	for _, d := range deadSites {
+		fmt.Printf("note: no feasible path reaches the return at %s\n", d)
 	}
 	if nObl == 0 {
 		fmt.Printf("CHECK BROKEN: zero obligations generated for %s\n", *prop)
@@ -268,6 +278,27 @@ func cmdCheck(args []string) {
 		fmt.Printf("VIOLATION property=%s replay=%s%s\n", *prop, path, suffix)
 	}
 
+	// C16: ground instances of the Register contract for the production binaries (the RPC surface)
+	surfaceSites := 0
+	var surfaceNames map[string][]string
+	if *prop == "C16" {
+		n, sv, sites := e.surfaceCheck(filepath.Join(*verifDir, "spec", "rpc_surface.json"))
+		surfaceSites, surfaceNames = n, sites
+		nObl += n + len(sv)
+		nDis += n
+		bySolver["surface-instantiation"] += n
+		for i, v := range sv {
+			violations++
+			path := filepath.Join(replayDir, fmt.Sprintf("rpc-surface-%d.json", i))
+			rec := map[string]interface{}{"property": "C16", "obligation": "rpc-surface", "what": v, "computed_surface": sites,
+				"documented_surface": filepath.Join(*verifDir, "spec", "rpc_surface.json"), "replay_verdict": "no-model"}
+			data, _ := json.MarshalIndent(rec, "", " ")
+			os.WriteFile(path, append(data, '\n'), 0o644)
+			fmt.Printf("FAILED OBLIGATION rpc-surface: %s\n", v)
+			fmt.Printf("VIOLATION property=C16 replay=%s no-failing-input-found\n", path)
+		}
+	}
+
 	// evidence
 	level := "proof"
 	expl := ""
@@ -303,6 +334,9 @@ func cmdCheck(args []string) {
 		"discharged_by_backend":    bySolver,
 		"solver_seconds":           round2(solverSecs),
 		"vacuity_covers":           map[string]int{"generated": covers, "satisfiable": coverSat},
+		"unreachable_return_sites": deadSites,
+		"rpc_surface_sites":        surfaceSites,
+		"rpc_surface":              surfaceNames,
 		"samples":                  samples,
 		"known_findings":           knownOut,
 		"known_finding_obligation_instances_excluded": knownObls,
